@@ -230,7 +230,10 @@ class LockEngine:
         work = []
         for role, fs in roles.items():
             for f in fs:
-                work.append((f, frozenset(), role))
+                if isinstance(f, tuple):
+                    work.append((f[0], frozenset(f[1]), role))
+                else:
+                    work.append((f, frozenset(), role))
         out = []
         while work:
             f, entry, role = work.pop()
@@ -507,13 +510,14 @@ def is_thread_ctor(st):
     return st['k'] == 'CXXConstructExpr' and st.get('ctor') == 'std::thread' and st.get('args')
 
 
-def thread_phase(prog, eng, single_thread_fields=None):
+def thread_phase(prog, eng, single_thread_fields=None, starters=None):
     """phase(access) -> roles the access cannot overlap:
     (1) in a constructor, an access that no thread-start point can reach precedes every
         thread of the object and its publication -> overlaps nothing;
     (2) an access dominated by join() on a std::thread *field* listed in
         single_thread_fields {qualified field: role} cannot overlap that role."""
     single_thread_fields = single_thread_fields or {}
+    starters = starters or {}
     start_cache = {}
 
     def starts_thread(g, depth=0):
@@ -544,7 +548,7 @@ def thread_phase(prog, eng, single_thread_fields=None):
         if p is None:
             return ()
         excl = set()
-        if f.d.get('ctor'):
+        if f.d.get('ctor') or f.name in starters:
             starts = []
             for pt, st in cfg.stmt_points():
                 if is_thread_ctor(st):
@@ -554,7 +558,9 @@ def thread_phase(prog, eng, single_thread_fields=None):
                     if h is not None and starts_thread(h):
                         starts.append(pt)
             if not any(cfg.exists_path(t, p) for t in starts):
-                return ALL_ROLES
+                if f.d.get('ctor'):
+                    return ALL_ROLES
+                excl.add(starters[f.name])
         for pt, st in cfg.stmt_points():
             if st['k'] == 'CXXMemberCallExpr' and st.get('fn') == 'join' and st.get('cls') == 'std::thread':
                 fq = f.field_of(st.get('obj'))
@@ -562,3 +568,55 @@ def thread_phase(prog, eng, single_thread_fields=None):
                     excl.add(single_thread_fields[fq])
         return excl
     return phase
+
+
+def lock_order_edges(prog, eng, contexts):
+    """A2: edges held -> acquired (blocking acquisitions only; try_lock adds none)."""
+    edges = {}
+    for f, entry, role in contexts:
+        res = eng.analyze(f, entry)
+        vl = eng._var_locks(f)
+        ctor_to_var = {v[2]: v for d, v in vl.items()}
+        for pt, st in f.cfg.stmt_points():
+            ls = res.get(pt)
+            if ls is None:
+                continue
+            acq = None
+            if st['k'] == 'CXXConstructExpr' and st['i'] in ctor_to_var and ctor_to_var[st['i']][1]:
+                acq = ctor_to_var[st['i']][0]
+            elif st['k'] == 'CXXMemberCallExpr' and st.get('fn') == 'lock' and st.get('cls', '') in MUTEX_CLASSES:
+                acq = eng.mutex_id(f, st.get('obj'))
+            if acq is None:
+                continue
+            for h in ls:
+                if h != acq:
+                    edges.setdefault((h, acq), '%s (%s)' % (f.loc(st['i']), site_name(prog, f)))
+    return edges
+
+
+def find_cycle(edges):
+    g = {}
+    for a, b in edges:
+        g.setdefault(a, set()).add(b)
+    color = {}
+    path = []
+
+    def dfs(u):
+        color[u] = 1
+        path.append(u)
+        for v in g.get(u, ()):
+            if color.get(v) == 1:
+                return path[path.index(v):] + [v]
+            if v not in color:
+                r = dfs(v)
+                if r:
+                    return r
+        color[u] = 2
+        path.pop()
+        return None
+    for u in list(g):
+        if u not in color:
+            r = dfs(u)
+            if r:
+                return r
+    return None
